@@ -427,6 +427,7 @@ func execC20(r *Run) {
 	}
 	digest("construction", nil, false)
 	evc := 0
+	healed, postHealAdds, postHealAcked, canRecover := false, 0, 0, false
 	for i, s := range r.Tape.Steps {
 		r.cur = i
 		switch s.Op {
@@ -440,6 +441,7 @@ func execC20(r *Run) {
 				net.hosts[nm+":8800"].mode = "ok"
 			}
 			r.Logf("HEAL")
+			healed = true
 		case "leader":
 			view.mu.Lock()
 			view.leader = names[s.Node%n]
@@ -454,6 +456,7 @@ func execC20(r *Run) {
 		case "add", "addbulk":
 			before := log.version()
 			leaderBefore := view.leader
+			liveBeforeCall := model.liveCandidate(client.Any)
 			var got []*protocol.Snapshot
 			what := fmt.Sprintf("Add#%d", i)
 			cerr := call(what, false, func() error {
@@ -480,6 +483,17 @@ func execC20(r *Run) {
 				want = uint64(s.K)
 			}
 			r.Logf("%s -> err=%v snapshots=%d executed=%d", what, cerr, len(got), after-before)
+			if healed {
+				if postHealAdds == 0 {
+					// can the client get out of "primary is dead" at all? health checks
+					// revive endpoints; discovery needs an endpoint it may still ask
+					canRecover = r.Cfg("fix_health") == 1 || (r.Cfg("fix_discovery") == 1 && (revive || liveBeforeCall != ""))
+				}
+				postHealAdds++
+				if cerr == nil {
+					postHealAcked++
+				}
+			}
 			if cerr == nil {
 				acked++
 				if after-before != want {
@@ -526,8 +540,11 @@ func execC20(r *Run) {
 	r.cur = len(r.Tape.Steps)
 	// convergence: faults stopped and a discovery or redirect was possible — the
 	// last writes of the tape (after healall) must have reached the leader
-	if r.Cfg("fix_discovery") == 1 && acked == 0 {
-		r.Count("probe.never_acked")
+	if canRecover && postHealAdds >= 3 && postHealAcked == 0 {
+		r.Fail("converges", "every endpoint has been healthy for 61 simulated seconds and health checks, or discovery with an endpoint left to ask, are available, but none of the %d following writes reached the leader", postHealAdds)
+	}
+	if postHealAcked > 0 {
+		r.Count("oracle.converged_after_faults")
 	}
 	cl.Close()
 	synctest.Wait()
